@@ -37,7 +37,9 @@ CASE_TIMEOUT = 120
 EZ = ["F/C=C/Cl", "F/C=C\\Cl", "C/C=C/C", "C/C=C\\C", "C/C(F)=C(/Cl)C", "CC/C=C/CO", "OC/C=C\\CC", "C/C=C/CC/C=C\\C", "CC(/C=C/C)O", "Cl/C=C/CC(C)C", "C1CC/C=C\\CCC1", "C/C=C(/C)CC", "N/C=C/C", "CS/C=C\\C",
       # double bonds with a lone-pair end (placeholder descriptors), alone and next to an ordinary alkene elsewhere in the molecule
       "C/C=N/O", "C/C=N\\O", "C/C=N/C", "C/C=N\\C", "C/N=N/C", "C/N=N\\C", "O/N=C/CC/C=C/C", "O/N=C/CC/C=C\\C", "O/N=C\\CC/C=C/C", "O/N=C\\CC/C=C\\C",
-      "C/N=C/CC/C=C/C", "C/C=C/CC/N=N/C", "C/C=C\\CC/N=N/C", "CC/C(CC/C=C/C)=N\\O", "C/C=C/CC/C=N/N", "F/C=C/CC/C=N/OC", "F/C=C\\CCC(/C)=N/O"]
+      "C/N=C/CC/C=C/C", "C/C=C/CC/N=N/C", "C/C=C\\CC/N=N/C", "CC/C(CC/C=C/C)=N\\O", "C/C=C/CC/C=N/N", "F/C=C/CC/C=N/OC", "F/C=C\\CCC(/C)=N/O",
+      # an isolated E/Z bond next to atoms the bond-order perception cannot pair with anything: counter-ions, a radical centre
+      "[Cl-].C/C=C\\C[NH3+]", "[Br-].C/C=C/C[NH3+]", "[Cl-].[Cl-].[NH3+]C/C=C\\C[NH3+]", "C/C=C/C[CH2]", "[I-].C/C=C/C[N+](C)(C)C"]
 
 
 def _ids(rng, n, family):
